@@ -256,8 +256,12 @@ def gen_case(world, tier, prop):
   uids = _factory_uids(root)
   if uids and frng.random() < 0.25:
     plan['fail'] = {'uid': frng.choice(uids), 'nth': frng.randint(1, 3)}
+    if frng.random() < 0.6:
+      plan['fail']['cls'] = frng.choice(sorted(FAILURE_CLASSES))
   elif uids and frng.random() < 0.2:
     plan['reenter'] = {'uid': frng.choice(uids)}
+  if frng.random() < 0.2:
+    plan['nested_build'] = True
   return {'defs': defs, 'root': {'share': root['id']}, 'ops': ops,
           'decoys': rng.random() < 0.5, 'plan': plan}
 
@@ -282,6 +286,17 @@ def _factory_uids(d, acc=None):
 
 class PlannedFailure(Exception):
   """Raised by a factory when the fault plan says so."""
+
+
+# the class a failing factory raises: the plain one, or one that iteration /
+# lookup / call machinery on the way out might take for its own signal
+FAILURE_CLASSES = {
+    'Planned': PlannedFailure, 'StopIteration': StopIteration,
+    'StopAsyncIteration': StopAsyncIteration, 'KeyError': KeyError,
+    'IndexError': IndexError, 'TypeError': TypeError,
+    'AttributeError': AttributeError, 'RuntimeError': RuntimeError,
+    'GeneratorExit': GeneratorExit,
+}
 
 
 # --------------------------------------------------------------------------
@@ -337,9 +352,17 @@ def run(case):
   plan = case.get('plan') or {}
   side = {'now': None, 'callable': None, 'depth': 0}
   counts = {}
+  planned = []     # the exceptions raised by the fault plan, in order
 
   def on_invoke(r):
     u = r.args.get('uid')
+    if side.get('building') and plan.get('nested_build'):
+      # a callable that is being built tries a build of its own and swallows
+      # the refusal (C05 says it is refused; here it must simply not matter)
+      try:
+        fdl.build(fdl.Config(dict, a=1))
+      except Exception:  # pylint: disable=broad-except
+        faults['nested_build_refused'] = faults.get('nested_build_refused', 0) + 1
     if side['now'] is None:
       return
     if plan.get('fail') and u == plan['fail']['uid']:
@@ -347,7 +370,10 @@ def run(case):
       counts[k] = counts.get(k, 0) + 1
       if counts[k] == plan['fail']['nth']:
         faults['factory_raises'] = faults.get('factory_raises', 0) + 1
-        raise PlannedFailure(f'factory {u} fails on its invocation #{counts[k]}')
+        cls = FAILURE_CLASSES[plan['fail'].get('cls', 'Planned')]
+        exc = cls(f'factory {u} fails on its invocation #{counts[k]}')
+        planned.append(exc)
+        raise exc
     if plan.get('reenter') and u == plan['reenter']['uid'] and side['depth'] == 0:
       # the factory calls the very partial it is being evaluated for, with every
       # factory-backed keyword overridden (bounded, legitimate re-entrancy)
@@ -369,7 +395,11 @@ def run(case):
         return res
       n0 = len(rec.log)
       try:
-        b = fdl.build(root)
+        side['building'] = True
+        try:
+          b = fdl.build(root)
+        finally:
+          side['building'] = False
       except Exception as e:  # pylint: disable=broad-except
         res['violations'].append(V(
             'build-raised', f'op #{idx}: fdl.build(Partial) raised '
@@ -398,22 +428,37 @@ def run(case):
     side.update(now='model', callable=ref, over_all=dyn_kw)
     if not reenter_ok:
       side['depth'] = 1   # positional factories cannot be overridden: no re-entry
+    n_planned = len(planned)
     try:
       rm = ref(*extra, **over)
       em = None
-    except (TypeError, PlannedFailure) as e:
+    except BaseException as e:  # pylint: disable=broad-except
+      if not (isinstance(e, TypeError) or any(e is x for x in planned)):
+        raise
       rm, em = None, e
+    em_planned = len(planned) > n_planned
+    if em_planned and not any(em is x for x in planned[n_planned:]):
+      raise AssertionError('oracle: the reference swallowed a planned failure')
     side.update(now='impl', callable=built_i[bi])
     try:
       ri = built_i[bi](*extra, **over)
       ei = None
-    except Exception as e:  # pylint: disable=broad-except
+    except BaseException as e:  # pylint: disable=broad-except
+      if isinstance(e, (KeyboardInterrupt, SystemExit)):
+        raise
       ri, ei = None, e
     side.update(now=None, depth=0)
-    if isinstance(em, PlannedFailure):
+    if em_planned:
       # a factory failed part-way through this call: the call must fail the
       # same way, and LATER calls must be unaffected (checked by the next ops)
-      if not isinstance(ei, PlannedFailure):
+      # (the factory's own exception, or one that carries it as its cause --
+      # Python itself turns a StopIteration crossing a generator into a
+      # RuntimeError -- but never a normal return)
+      chain, e_ = [], ei
+      while e_ is not None and len(chain) < 10:
+        chain.append(e_)
+        e_ = e_.__cause__ or e_.__context__
+      if not any(c is x for c in chain for x in planned[n_planned:]):
         res['violations'].append(V(
             'factory-failure-not-propagated',
             f'op #{idx} {op}: a factory raised but the call '
